@@ -74,7 +74,9 @@ pub fn observe_pair(cert_path: &Path, key_path: &Path) -> Value {
 				let s = x509_summary(&stack[0]);
 				leaf_spki = s["spki_sha256"].as_str().map(|s| s.to_string());
 				cert["leaf"] = s;
-				let begin = String::from_utf8_lossy(&data).matches("-----BEGIN ").count();
+				let begin = String::from_utf8_lossy(&data)
+					.matches("-----BEGIN ")
+					.count();
 				cert["n_begin_markers"] = json!(begin);
 			}
 			Ok(_) => {
@@ -92,7 +94,10 @@ pub fn observe_pair(cert_path: &Path, key_path: &Path) -> Value {
 		match PKey::private_key_from_pem(&data) {
 			Ok(k) => {
 				key["parses"] = json!(true);
-				key_spki = k.public_key_to_der().ok().map(|d| cu::hexs(&cu::sha256(&d)));
+				key_spki = k
+					.public_key_to_der()
+					.ok()
+					.map(|d| cu::hexs(&cu::sha256(&d)));
 				key["spki_sha256"] = json!(key_spki);
 				key["pkcs8"] = json!(String::from_utf8_lossy(&data).contains("BEGIN PRIVATE KEY"));
 				key["key_id"] = json!(format!("{:?}", k.id()));
@@ -124,7 +129,10 @@ fn subst(text: &str, dir: &str, cas: &[CaServer], ctl: &str) -> String {
 	let exe = std::env::current_exe()
 		.map(|p| p.display().to_string())
 		.unwrap_or_default();
-	let mut s = text.replace("@DIR@", dir).replace("@EXE@", &exe).replace("@CTL@", ctl);
+	let mut s = text
+		.replace("@DIR@", dir)
+		.replace("@EXE@", &exe)
+		.replace("@CTL@", ctl);
 	for (i, c) in cas.iter().enumerate() {
 		s = s.replace(&format!("@CA{i}@"), &format!("{}/dir", c.base));
 		s = s.replace(&format!("@CABASE{i}@"), &c.base);
@@ -169,7 +177,9 @@ fn write_files(files: &Value, dir: &str, cas: &[CaServer], ctl: &str) -> Result<
 }
 
 pub fn gen_key(kt: &str) -> Result<acme_common::crypto::KeyPair, String> {
-	let kt: acme_common::crypto::KeyType = kt.parse().map_err(|e: acme_common::error::Error| e.message)?;
+	let kt: acme_common::crypto::KeyType = kt
+		.parse()
+		.map_err(|e: acme_common::error::Error| e.message)?;
 	acme_common::crypto::gen_keypair(kt).map_err(|e| e.message)
 }
 
@@ -177,7 +187,12 @@ pub fn gen_key(kt: &str) -> Result<acme_common::crypto::KeyPair, String> {
 fn pre_op(op: &Value, dir: &str, cas: &[CaServer], ctl: &str) -> Result<Value, String> {
 	let name = op.get("op").and_then(|v| v.as_str()).unwrap_or("");
 	let path_of = |k: &str| -> PathBuf {
-		let s = subst(op.get(k).and_then(|v| v.as_str()).unwrap_or(""), dir, cas, ctl);
+		let s = subst(
+			op.get(k).and_then(|v| v.as_str()).unwrap_or(""),
+			dir,
+			cas,
+			ctl,
+		);
 		if s.starts_with('/') {
 			PathBuf::from(s)
 		} else {
@@ -188,18 +203,35 @@ fn pre_op(op: &Value, dir: &str, cas: &[CaServer], ctl: &str) -> Result<Value, S
 		"install_pair" => {
 			// issue a certificate with the mini CA of cas[ca] for a fresh key, write both files
 			let ca_idx = op.get("ca").and_then(|v| v.as_u64()).unwrap_or(0) as usize;
-			let key = gen_key(op.get("key_type").and_then(|v| v.as_str()).unwrap_or("ecdsa-p256"))?;
+			let key = gen_key(
+				op.get("key_type")
+					.and_then(|v| v.as_str())
+					.unwrap_or("ecdsa-p256"),
+			)?;
 			let cert_key = if op.get("mismatch").and_then(|v| v.as_bool()) == Some(true) {
-				gen_key(op.get("key_type").and_then(|v| v.as_str()).unwrap_or("ecdsa-p256"))?
+				gen_key(
+					op.get("key_type")
+						.and_then(|v| v.as_str())
+						.unwrap_or("ecdsa-p256"),
+				)?
 			} else {
 				key.clone()
 			};
-			let pubkey = PKey::public_key_from_der(&cert_key.inner_key.public_key_to_der().map_err(|e| format!("{e}"))?)
-				.map_err(|e| format!("{e}"))?;
+			let pubkey = PKey::public_key_from_der(
+				&cert_key
+					.inner_key
+					.public_key_to_der()
+					.map_err(|e| format!("{e}"))?,
+			)
+			.map_err(|e| format!("{e}"))?;
 			let strs = |k: &str| -> Vec<String> {
 				op.get(k)
 					.and_then(|v| v.as_array())
-					.map(|a| a.iter().filter_map(|x| x.as_str().map(|s| s.to_string())).collect())
+					.map(|a| {
+						a.iter()
+							.filter_map(|x| x.as_str().map(|s| s.to_string()))
+							.collect()
+					})
 					.unwrap_or_default()
 			};
 			let chain = {
@@ -208,8 +240,12 @@ fn pre_op(op: &Value, dir: &str, cas: &[CaServer], ctl: &str) -> Result<Value, S
 					&pubkey,
 					&strs("dns"),
 					&strs("ip"),
-					op.get("not_before_off").and_then(|v| v.as_i64()).unwrap_or(-3600),
-					op.get("not_after_off").and_then(|v| v.as_i64()).unwrap_or(90 * 86400),
+					op.get("not_before_off")
+						.and_then(|v| v.as_i64())
+						.unwrap_or(-3600),
+					op.get("not_after_off")
+						.and_then(|v| v.as_i64())
+						.unwrap_or(90 * 86400),
 					op.get("chain_len").and_then(|v| v.as_u64()).unwrap_or(2) as usize,
 				)
 			};
@@ -224,7 +260,8 @@ fn pre_op(op: &Value, dir: &str, cas: &[CaServer], ctl: &str) -> Result<Value, S
 				std::fs::write(&cp, ca::chain_pem(&chain)).map_err(|e| format!("{e}"))?;
 			}
 			if op.get("no_key").and_then(|v| v.as_bool()) != Some(true) {
-				std::fs::write(&kp, key.private_key_to_pem().map_err(|e| e.message)?).map_err(|e| format!("{e}"))?;
+				std::fs::write(&kp, key.private_key_to_pem().map_err(|e| e.message)?)
+					.map_err(|e| format!("{e}"))?;
 			}
 			Ok(json!({"op": name, "observed": observe_pair(&cp, &kp)}))
 		}
@@ -233,8 +270,14 @@ fn pre_op(op: &Value, dir: &str, cas: &[CaServer], ctl: &str) -> Result<Value, S
 			use openssl::bn::{BigNum, BigNumContext};
 			use openssl::ec::{EcGroup, EcKey, EcPoint};
 			let name = op.get("name").and_then(|v| v.as_str()).unwrap_or("acc0");
-			let curve = op.get("key_type").and_then(|v| v.as_str()).unwrap_or("ecdsa-p256");
-			let coord = op.get("leading_zero").and_then(|v| v.as_str()).unwrap_or("x");
+			let curve = op
+				.get("key_type")
+				.and_then(|v| v.as_str())
+				.unwrap_or("ecdsa-p256");
+			let coord = op
+				.get("leading_zero")
+				.and_then(|v| v.as_str())
+				.unwrap_or("x");
 			let (nid, size) = match curve {
 				"ecdsa-p384" => (openssl::nid::Nid::SECP384R1, 48usize),
 				"ecdsa-p521" => (openssl::nid::Nid::SECP521R1, 66),
@@ -247,8 +290,10 @@ fn pre_op(op: &Value, dir: &str, cas: &[CaServer], ctl: &str) -> Result<Value, S
 			for d in 1u32..200000 {
 				let dn = BigNum::from_u32(d).map_err(|e| format!("{e}"))?;
 				let mut pt = EcPoint::new(&group).map_err(|e| format!("{e}"))?;
-				pt.mul_generator(&group, &dn, &ctxbn).map_err(|e| format!("{e}"))?;
-				let ec = EcKey::from_private_components(&group, &dn, &pt).map_err(|e| format!("{e}"))?;
+				pt.mul_generator(&group, &dn, &ctxbn)
+					.map_err(|e| format!("{e}"))?;
+				let ec =
+					EcKey::from_private_components(&group, &dn, &pt).map_err(|e| format!("{e}"))?;
 				let pkey = PKey::from_ec_key(ec).map_err(|e| format!("{e}"))?;
 				let (x, y) = cu::ec_affine_padded(&pkey, size)?;
 				let hit = match coord {
@@ -262,12 +307,25 @@ fn pre_op(op: &Value, dir: &str, cas: &[CaServer], ctl: &str) -> Result<Value, S
 				}
 			}
 			let (d, pkey) = found.ok_or("no scalar found")?;
-			let kp = acme_common::crypto::KeyPair::from_der(&pkey.private_key_to_der().map_err(|e| format!("{e}"))?).map_err(|e| e.message)?;
+			let kp = acme_common::crypto::KeyPair::from_der(
+				&pkey.private_key_to_der().map_err(|e| format!("{e}"))?,
+			)
+			.map_err(|e| e.message)?;
 			std::fs::create_dir_all(format!("{dir}/accounts")).map_err(|e| format!("{e}"))?;
 			let fm = super::grids::plain_fm(dir, name, "x");
-			let rt = tokio::runtime::Builder::new_current_thread().enable_all().build().unwrap();
+			let rt = tokio::runtime::Builder::new_current_thread()
+				.enable_all()
+				.build()
+				.unwrap();
 			let mut acc = rt
-				.block_on(crate::account::Account::load(&fm, name, &[], &Some(curve.to_string()), &None, &None))
+				.block_on(crate::account::Account::load(
+					&fm,
+					name,
+					&[],
+					&Some(curve.to_string()),
+					&None,
+					&None,
+				))
 				.map_err(|e| e.message)?;
 			acc.current_key.key = kp;
 			rt.block_on(acc.save()).map_err(|e| e.message)?;
@@ -277,7 +335,8 @@ fn pre_op(op: &Value, dir: &str, cas: &[CaServer], ctl: &str) -> Result<Value, S
 			use std::os::unix::fs::PermissionsExt;
 			let p = path_of("path");
 			let m = op.get("mode").and_then(|v| v.as_u64()).unwrap_or(0o644) as u32;
-			std::fs::set_permissions(&p, std::fs::Permissions::from_mode(m)).map_err(|e| format!("{e}"))?;
+			std::fs::set_permissions(&p, std::fs::Permissions::from_mode(m))
+				.map_err(|e| format!("{e}"))?;
 			Ok(json!({"op": name}))
 		}
 		"symlink" => {
@@ -357,7 +416,11 @@ fn start_ctl(stop: Arc<AtomicBool>) -> (String, u16) {
 					return;
 				}
 				let msg: Value = serde_json::from_str(&line).unwrap_or(Value::Null);
-				let tag = msg.get("tag").and_then(|v| v.as_str()).unwrap_or("").to_string();
+				let tag = msg
+					.get("tag")
+					.and_then(|v| v.as_str())
+					.unwrap_or("")
+					.to_string();
 				let (cp, answer) = super::choice("hook", "", json!({"tag": tag}));
 				let mut ev = msg.clone();
 				ev["ev"] = json!("hook");
@@ -430,10 +493,23 @@ async fn dump_parts(srv: &mut MainEventLoop) -> Value {
 		let a = accounts[&n].read().await;
 		let mut eps: Vec<String> = a.endpoints.keys().cloned().collect();
 		eps.sort();
-		let key_thumb = |k: &crate::account::AccountKey| k.key.jwk_public_key().ok().and_then(|j| cu::thumbprint(&j).ok());
-		let key_hash = |k: &crate::account::AccountKey| k.key.public_key_to_pem().ok().map(|p| cu::sha256(&p));
+		let key_thumb = |k: &crate::account::AccountKey| {
+			k.key
+				.jwk_public_key()
+				.ok()
+				.and_then(|j| cu::thumbprint(&j).ok())
+		};
+		let key_hash =
+			|k: &crate::account::AccountKey| k.key.public_key_to_pem().ok().map(|p| cu::sha256(&p));
 		let cur_hash = key_hash(&a.current_key);
-		let contacts_hash = cu::sha256(a.contacts.iter().map(|c| c.to_string()).collect::<Vec<String>>().join("").as_bytes());
+		let contacts_hash = cu::sha256(
+			a.contacts
+				.iter()
+				.map(|c| c.to_string())
+				.collect::<Vec<String>>()
+				.join("")
+				.as_bytes(),
+		);
 		let mut epd = serde_json::Map::new();
 		for (k, e) in a.endpoints.iter() {
 			let which_key = if Some(&e.key_hash) == cur_hash.as_ref() {
@@ -441,19 +517,26 @@ async fn dump_parts(srv: &mut MainEventLoop) -> Value {
 			} else if e.key_hash.is_empty() {
 				"none".to_string()
 			} else {
-				match a.past_keys.iter().position(|p| key_hash(p).as_ref() == Some(&e.key_hash)) {
+				match a
+					.past_keys
+					.iter()
+					.position(|p| key_hash(p).as_ref() == Some(&e.key_hash))
+				{
 					Some(i) => format!("past{i}"),
 					None => "unknown".to_string(),
 				}
 			};
-			epd.insert(k.clone(), json!({
-				"account_url": e.account_url,
-				"key": which_key,
-				"contacts_current": e.contacts_hash == contacts_hash,
-				"has_eab_hash": !e.external_account_hash.is_empty(),
-				"contacts_hash": cu::hexs(&e.contacts_hash),
-				"eab_hash": cu::hexs(&e.external_account_hash),
-			}));
+			epd.insert(
+				k.clone(),
+				json!({
+					"account_url": e.account_url,
+					"key": which_key,
+					"contacts_current": e.contacts_hash == contacts_hash,
+					"has_eab_hash": !e.external_account_hash.is_empty(),
+					"contacts_hash": cu::hexs(&e.contacts_hash),
+					"eab_hash": cu::hexs(&e.external_account_hash),
+				}),
+			);
 		}
 		av.push(json!({
 			"name": a.name,
@@ -502,12 +585,21 @@ fn run_phase(phase: &Value, dir: &str, cas: &[CaServer], ctl: &str) -> Value {
 		}
 	}
 	out["pre"] = json!(pre_out);
-	let mode = phase.get("mode").and_then(|v| v.as_str()).unwrap_or("run").to_string();
+	let mode = phase
+		.get("mode")
+		.and_then(|v| v.as_str())
+		.unwrap_or("run")
+		.to_string();
 	if mode == "none" {
 		return out;
 	}
 	let config = Path::new(dir)
-		.join(phase.get("config").and_then(|v| v.as_str()).unwrap_or("main.toml"))
+		.join(
+			phase
+				.get("config")
+				.and_then(|v| v.as_str())
+				.unwrap_or("main.toml"),
+		)
 		.display()
 		.to_string();
 	let root_certs: Vec<String> = phase
@@ -523,10 +615,20 @@ fn run_phase(phase: &Value, dir: &str, cas: &[CaServer], ctl: &str) -> Value {
 	let horizon_map: std::collections::HashMap<String, usize> = phase
 		.get("attempts_per_cert")
 		.and_then(|v| v.as_object())
-		.map(|o| o.iter().map(|(k, v)| (k.clone(), v.as_u64().unwrap_or(1) as usize)).collect())
+		.map(|o| {
+			o.iter()
+				.map(|(k, v)| (k.clone(), v.as_u64().unwrap_or(1) as usize))
+				.collect()
+		})
 		.unwrap_or_default();
-	let wall_budget_ms = phase.get("wall_budget_ms").and_then(|v| v.as_u64()).unwrap_or(20_000);
-	let schedule_draws = phase.get("schedule_draws").and_then(|v| v.as_u64()).unwrap_or(1);
+	let wall_budget_ms = phase
+		.get("wall_budget_ms")
+		.and_then(|v| v.as_u64())
+		.unwrap_or(20_000);
+	let schedule_draws = phase
+		.get("schedule_draws")
+		.and_then(|v| v.as_u64())
+		.unwrap_or(1);
 	let rt = tokio::runtime::Builder::new_current_thread()
 		.enable_all()
 		.start_paused(true)
@@ -557,7 +659,10 @@ fn run_phase(phase: &Value, dir: &str, cas: &[CaServer], ctl: &str) -> Value {
 			};
 			o["new"] = json!("ok");
 			o["parts"] = dump_parts(&mut srv).await;
-			let n_certs = o["parts"]["certificates"].as_array().map(|a| a.len()).unwrap_or(0);
+			let n_certs = o["parts"]["certificates"]
+				.as_array()
+				.map(|a| a.len())
+				.unwrap_or(0);
 			with_run(|r| {
 				let mut exp = 0;
 				for c in o["parts"]["certificates"].as_array().unwrap_or(&vec![]) {
@@ -598,7 +703,8 @@ fn run_phase(phase: &Value, dir: &str, cas: &[CaServer], ctl: &str) -> Value {
 					let done = Arc::new(AtomicBool::new(false));
 					let timed_out = Arc::new(AtomicBool::new(false));
 					{
-						let (done, timed_out, stop) = (done.clone(), timed_out.clone(), stop.clone());
+						let (done, timed_out, stop) =
+							(done.clone(), timed_out.clone(), stop.clone());
 						std::thread::spawn(move || {
 							let t = std::time::Instant::now();
 							while !done.load(Ordering::SeqCst) {
@@ -652,7 +758,8 @@ fn run_phase(phase: &Value, dir: &str, cas: &[CaServer], ctl: &str) -> Value {
 }
 
 pub fn make_scratch() -> String {
-	let base = std::env::var("VERIF_SCRATCH").unwrap_or_else(|_| std::env::temp_dir().display().to_string());
+	let base = std::env::var("VERIF_SCRATCH")
+		.unwrap_or_else(|_| std::env::temp_dir().display().to_string());
 	let dir = format!(
 		"{}/acmed-verif-{}-{}",
 		base,
@@ -664,10 +771,17 @@ pub fn make_scratch() -> String {
 	dir
 }
 
-pub fn build_tls(dir: &str, cfg: &Value, pkis: &std::collections::HashMap<String, ca::Pki>) -> Option<Arc<openssl::ssl::SslAcceptor>> {
+pub fn build_tls(
+	dir: &str,
+	cfg: &Value,
+	pkis: &std::collections::HashMap<String, ca::Pki>,
+) -> Option<Arc<openssl::ssl::SslAcceptor>> {
 	let tls = cfg.get("tls")?;
 	let signer = tls.get("signed_by").and_then(|v| v.as_str()).unwrap_or("R");
-	let host = tls.get("host").and_then(|v| v.as_str()).unwrap_or("localhost");
+	let host = tls
+		.get("host")
+		.and_then(|v| v.as_str())
+		.unwrap_or("localhost");
 	let pki = pkis.get(signer)?;
 	let key = ca::gen_p256();
 	let pubkey = PKey::public_key_from_der(&key.public_key_to_der().unwrap()).unwrap();
@@ -689,7 +803,8 @@ pub fn build_tls(dir: &str, cfg: &Value, pkis: &std::collections::HashMap<String
 		inters: vec![],
 	};
 	let chain = p2.issue(&pubkey, &dns, &ips, nb, na, 1);
-	let mut b = openssl::ssl::SslAcceptor::mozilla_intermediate_v5(openssl::ssl::SslMethod::tls()).ok()?;
+	let mut b =
+		openssl::ssl::SslAcceptor::mozilla_intermediate_v5(openssl::ssl::SslMethod::tls()).ok()?;
 	b.set_private_key(&key).ok()?;
 	b.set_certificate(&chain[0]).ok()?;
 	let _ = dir;
@@ -698,14 +813,25 @@ pub fn build_tls(dir: &str, cfg: &Value, pkis: &std::collections::HashMap<String
 
 pub fn run_scenario(req: &Value) -> Value {
 	let t_wall = std::time::Instant::now();
-	let script: Vec<Value> = req.get("script").and_then(|v| v.as_array()).cloned().unwrap_or_default();
+	let script: Vec<Value> = req
+		.get("script")
+		.and_then(|v| v.as_array())
+		.cloned()
+		.unwrap_or_default();
 	run_reset(script);
 	with_run(|r| {
-		r.hook_hold_ms = req.get("hook_hold_ms").and_then(|v| v.as_u64()).unwrap_or(0);
-		r.observe_files = req.get("observe_files").and_then(|v| v.as_bool()).unwrap_or(true);
+		r.hook_hold_ms = req
+			.get("hook_hold_ms")
+			.and_then(|v| v.as_u64())
+			.unwrap_or(0);
+		r.observe_files = req
+			.get("observe_files")
+			.and_then(|v| v.as_bool())
+			.unwrap_or(true);
 	});
 	let dir = make_scratch();
-	let old_umask = unsafe { umask(req.get("umask").and_then(|v| v.as_u64()).unwrap_or(0o022) as u32) };
+	let old_umask =
+		unsafe { umask(req.get("umask").and_then(|v| v.as_u64()).unwrap_or(0o022) as u32) };
 	// named PKIs (roots written to @DIR@/pki/<name>.pem) for TLS scenarios
 	let mut pkis = std::collections::HashMap::new();
 	if let Some(a) = req.get("pkis").and_then(|v| v.as_array()) {
@@ -719,7 +845,8 @@ pub fn run_scenario(req: &Value) -> Value {
 	let mut cas: Vec<CaServer> = vec![];
 	if let Some(a) = req.get("cas").and_then(|v| v.as_array()) {
 		for (i, cfg) in a.iter().enumerate() {
-			let cfg: Value = serde_json::from_str(&cfg.to_string().replace("@DIR@", &dir)).unwrap_or_else(|_| cfg.clone());
+			let cfg: Value = serde_json::from_str(&cfg.to_string().replace("@DIR@", &dir))
+				.unwrap_or_else(|_| cfg.clone());
 			let cfg = &cfg;
 			let name = ca::cfg_str(cfg, "name", &format!("ca{i}"));
 			let tls = build_tls(&dir, cfg, &pkis);
@@ -784,7 +911,10 @@ pub fn run_scenario(req: &Value) -> Value {
 		for p in pats.iter().filter_map(|x| x.as_str()) {
 			if let Ok(g) = glob::glob(&format!("{dir}/{p}")) {
 				for f in g.filter_map(Result::ok) {
-					let rel = f.strip_prefix(&dir).map(|x| x.display().to_string()).unwrap_or_default();
+					let rel = f
+						.strip_prefix(&dir)
+						.map(|x| x.display().to_string())
+						.unwrap_or_default();
 					col.insert(rel, file_info(&f));
 				}
 			}
@@ -796,9 +926,15 @@ pub fn run_scenario(req: &Value) -> Value {
 		for p in pats.iter().filter_map(|x| x.as_str()) {
 			if let Ok(g) = glob::glob(&format!("{dir}/{p}")) {
 				for f in g.filter_map(Result::ok) {
-					let rel = f.strip_prefix(&dir).map(|x| x.display().to_string()).unwrap_or_default();
+					let rel = f
+						.strip_prefix(&dir)
+						.map(|x| x.display().to_string())
+						.unwrap_or_default();
 					let data = std::fs::read(&f).unwrap_or_default();
-					col.insert(rel, json!(String::from_utf8_lossy(&data[..data.len().min(4096)])));
+					col.insert(
+						rel,
+						json!(String::from_utf8_lossy(&data[..data.len().min(4096)])),
+					);
 				}
 			}
 		}
@@ -818,7 +954,8 @@ pub fn run_scenario(req: &Value) -> Value {
 	unsafe {
 		umask(old_umask);
 	}
-	let (events, cps) = with_run(|r| (std::mem::take(&mut r.events), std::mem::take(&mut r.cps))).unwrap_or_default();
+	let (events, cps) = with_run(|r| (std::mem::take(&mut r.events), std::mem::take(&mut r.cps)))
+		.unwrap_or_default();
 	out["phases"] = json!(phases_out);
 	out["events"] = json!(events);
 	out["cps"] = json!(cps);
